@@ -610,6 +610,9 @@ def run(ctx):
     ndt = datetime_literal_layer(ctx)
     ctx.layer("datetime-components", literals=len(DT_LITERALS), templates=len(DT_TEMPLATES), translations=ndt, exhaustive=True,
               note="date-time literals (with / without seconds, fraction, Z / signed offset): the one string constant of the SQL reads back, independently, as the same date, time of day, fraction and offset")
+    nc = compositional_layer(ctx)
+    ctx.layer("compositional-operands", operands=len(COMP_OPERANDS), contexts=len(COMP_CONTEXTS), translations=nc, exhaustive=True,
+              note="the SQL of an operand translated alone occurs, as ONE subtree (modulo parentheses), in the SQL of every expression that uses it as an operand: what a call expands to (indexof's - 1, substring's + 1) stays inside the operator applied to the call")
     nk = keyword_case_layer(ctx)
     ctx.layer("keyword-literal-case", keywords=len(KW_LITERALS), templates=len(KW_TEMPLATES), translations=nk, exhaustive=True,
               note="every upper/lower-case spelling of true, false, null translates like the lower-case spelling")
@@ -807,6 +810,75 @@ def datetime_literal_layer(ctx):
     return n
 
 
+# ---------------------------------------------------------------- operands translate to one subtree (wave 13)
+COMP_OPERANDS = ["indexof(s, 'b')", "indexof(s, u)", "length(s)", "n add 1", "n sub m", "n mul 2", "n div m", "n mod 3", "-n", "- indexof(s, 'b')", "length(concat(s, 'a'))",
+                 "indexof(substring(s, 1), 'b')", "indexof(substring(s, n, 2), u)", "round(x)", "floor(x)", "ceiling(x)", "year(d)", "month(d)", "length(trim(s))", "length(substring(s, indexof(s, 'b')))"]
+COMP_CONTEXTS = ["-{X} eq -1", "- {X} eq -1", "-(-{X}) eq 1", "{X} add n eq 1", "n add {X} eq 1", "{X} sub n eq 1", "n sub {X} eq 1", "{X} mul n eq 1", "n mul {X} eq 1", "{X} div n eq 1", "n div {X} eq 1",
+                 "{X} mod n eq 1", "n mod {X} eq 1", "{X} eq n", "n lt {X}", "not ({X} ge n)", "{X} in (1, 2)", "-{X} mul -{X} eq 1", "n sub -{X} eq 1", "{X} eq n or -{X} eq m", "substring(s, {X}) eq u",
+                 "substring(s, 1, {X}) eq u", "substring(s, -{X}) eq u"]
+
+
+def _noparen(n):
+    if isinstance(n, tuple):
+        if n and n[0] == "paren":
+            return _noparen(n[1])
+        return tuple(_noparen(c) for c in n)
+    if isinstance(n, list):
+        return [_noparen(c) for c in n]
+    return n
+
+
+def _subtrees(n, out):
+    if isinstance(n, tuple):
+        out.append(n)
+    if isinstance(n, (tuple, list)):
+        for c in n:
+            _subtrees(c, out)
+    return out
+
+
+def compositional_unit(xt, ctpl, dname):
+    """-> None / (class, detail)"""
+    cls = DIALECTS[dname]
+    text = ctpl.replace("{X}", "(" + xt + ")")
+    try:
+        whole = cls(None).visit(_ps.parse(_lx.tokenize(text)))
+        part = cls(None).visit(_ps.parse(_lx.tokenize(xt)))
+    except exceptions.ODataException:
+        return "refused"
+    try:
+        tw, tp = _noparen(SP.parse_sql(whole)[0]), _noparen(SP.parse_sql(part)[0])
+    except SP.SqlSyntaxError as e:
+        return ("syntax", {"sql": whole, "sql_operand": part, "problem": str(e)[:80]})
+    need = ctpl.count("{X}")
+    have = sum(1 for t in _subtrees(tw, []) if t == tp)
+    if have < need:
+        return ("operand-not-a-subtree", {"sql": whole, "sql_operand": part, "occurrences": have, "expected": need})
+    return None
+
+
+def compositional_layer(ctx):
+    n = 0
+    for xt in COMP_OPERANDS:
+        for ctpl in COMP_CONTEXTS:
+            ctx.count("states")
+            for dname in DIALECTS:
+                n += 1
+                ctx.count("executions")
+                ctx.count("transitions")
+                r = compositional_unit(xt, ctpl, dname)
+                if r is None or r == "refused":
+                    ctx.outcome(("compositional", r or "ok"))
+                else:
+                    finding = None
+                    if dname == "standard" and r[0] == "syntax" and ("floor(" in xt or "ceiling(" in xt):
+                        # catalogued malformed CASE template of floor / ceiling: attribute only if the same unit with round in their place is fine
+                        if compositional_unit(xt.replace("floor(", "round(").replace("ceiling(", "round("), ctpl, dname) is None:
+                            finding = "standard:floor-ceiling-case-template"
+                    ctx.violation("%s:compositional:%s" % (dname, r[0]), dict(r[1], filter=ctpl.replace("{X}", "(" + xt + ")"), dialect=dname, alias=None, layer="compositional", operand=xt, context=ctpl), finding=finding)
+    return n
+
+
 # ---------------------------------------------------------------- table alias spellings (wave 13)
 ALIASES = ["T1", "Al", "my-alias", "t_1", "tbl 2", "\u00e9t\u00e9", "AL", "select"]
 ALIAS_FILTERS = ["n eq 1", "s eq 'a' and n gt 2", "contains(s, 'a') or b", "n in (1, 2)", "length(s) add n eq 3", "not (b eq true)", "Name eq name", "d gt 2020-01-01T00:00:00Z",
@@ -995,6 +1067,9 @@ def replay(ctx, case):
         datetime_literal_layer(acc)
         mine = [v for v in acc.violations if v["case"]["filter"] == text and v["case"]["dialect"] == case["dialect"]]
         return {"filter": text, "violations": mine, "ok": not mine}
+    if case.get("layer") == "compositional":
+        r = compositional_unit(case["operand"], case["context"], case["dialect"])
+        return {"filter": text, "violation": None if r in (None, "refused") else [r[0], r[1]], "ok": r in (None, "refused")}
     if case.get("layer") == "alias-spellings":
         tree = _ps.parse(_lx.tokenize(text))
         plain, sql = DIALECTS[case["dialect"]](None).visit(tree), DIALECTS[case["dialect"]](case["alias"]).visit(tree)
